@@ -1,37 +1,25 @@
 """C09 - call/N, once/1, findall/3, = and \\= agree with their standard definitions."""
 from lib import semcheck, progs, progs_shapes
-from lib.semcheck import impl, model_expr, compare, oracle, describe, shrink, IMPORTS
+from lib.semcheck import model_expr, describe, shrink, IMPORTS
 
 ID = 'C09'
-THEOREMS = ['C09_compiled_program_computes_reference', 'C09_builtin_extensional', 'C09_call_spec_compound', 'C09_call_spec_atom', 'C09_once_spec', 'C09_findall_spec', 'C09_findall_one_instance_per_answer', 'C09_findall_instances', 'C09_findall_at_most_once', 'C09_findall_shares_caller_variables', 'C09_eq_spec', 'C09_condition_failure_discards_bindings', 'C09_after_failed_condition', 'C09_negation_discards_bindings',
-            'C09_branch_failure_discards_bindings', 'C09_neq_spec']
+THEOREMS = ['C09_compiled_program_computes_reference', 'C09_builtin_extensional', 'C09_call_spec_compound', 'C09_call_spec_atom', 'C09_once_spec', 'C09_findall_spec', 'C09_findall_one_instance_per_answer', 'C09_findall_instances', 'C09_findall_at_most_once', 'C09_findall_bag_after_enumeration', 'C09_findall_is_collect_then_match', 'C09_findall_shares_caller_variables', 'C09_eq_spec',
+            'C09_condition_failure_discards_bindings', 'C09_after_failed_condition', 'C09_negation_discards_bindings', 'C09_branch_failure_discards_bindings', 'C09_neq_spec']
 CASE_TIMEOUT = 60
 MODEL_NEEDS_IMPL = True
 COQ_CHUNK = 20
 RULE = ('random programs whose bodies use call/1..N (extra arguments), once/1, findall/3, = and \\= with goals written inline or arriving '
         'through one or two bound variables, atoms or compound goals, with 0/1/many solutions, as first/middle/last goal, under \\+ and inside '
         'if-then-else, with templates that share variables with the goal and repeated variables in \\= ; compared as C01 (the builtins are part '
-        'of both Coq semantics). Non-trivial: a builtin is called with a goal that arrives through a variable or has extra arguments or has no '
-        'solution, and some query has an answer. Plus program shapes of lib/progs_shapes.py: clause-local variables that occur first in an = goal '
-        '(either side) inside a condition / negation / disjunction branch / once / call / findall, followed there by a goal that may fail, and '
-        'used again in the else branch or after the construct (all locals exported through the head); findall/3 with a closed or partial '
-        'list as bag that shares variables with the goal, the template or an instance.')
+        'of both Coq semantics); half of the findall/3 goals get a non-variable bag; a second family (progs.gen_meta_program) applies the builtins to '
+        'binding-sensitive goals with bags / extra arguments / terms that share the caller\'s variables with the goal, and queries the builtins '
+        'themselves through YP.query. Non-trivial: a builtin is called with a goal that arrives through a variable or has extra arguments or has no '
+        'solution, and some query has an answer. Intrinsic oracle: the program with every builtin call replaced by its standard '
+        'definition (findall(T,G,B) => findall(T,G,L), L = B; X \\= Y => \\+ X = Y; inline once(G) => (G -> true); inline call(G,A..) => the goal) gives the same answers.')
 TRUSTED_BASE = []
 
 N_FIRST = {'quick': 40, 'thorough': 400}
 N_BAG = {'quick': 30, 'thorough': 300}
-
-def impl(case):
-    io = semcheck.impl(case)
-    if isinstance(io, dict) and 'queries' in io and 'findall' in semcheck.source_of(case):
-        # see lib/findall_diag.py: does some collected instance contain an unbound variable of the caller?
-        from lib import findall_diag
-        try:
-            for iq, f in zip(io['queries'], findall_diag.outer_flags(case)):
-                iq['findall_outer'] = f
-        except Exception:
-            pass
-    return io
 
 SLD_MSG = 'compiled-code model and SLD reference differ'
 HIGH_RECURSION_LIMIT = 30000
@@ -88,9 +76,18 @@ def gen(rng, tier):
     n = 240 if tier == 'quick' else 5000
     cases = []
     for _ in range(n):
-        o = progs.Opts(open_leaves=0.5 if rng.random() < 0.6 else 0.0, control=rng.random() < 0.5, cut=rng.random() < 0.2, opaque_cut=False, builtins=True)
+        o = progs.Opts(open_leaves=0.5 if rng.random() < 0.6 else 0.0, control=rng.random() < 0.5, cut=rng.random() < 0.2, opaque_cut=False, builtins=True,
+                       bag_shapes=0.5)
         p = progs.gen_program(rng, o)
-        cases.append({'clauses': p['clauses'], 'queries': p['queries']})
+        c = {'clauses': p['clauses'], 'queries': p['queries']}
+        if any('call:findall' in progs.constructs(b) for _, _, b in p['clauses']):
+            c['sld_aux_only'] = True      # see semcheck.compare: Sld.solve is no reference for the identity of collected variables
+        cases.append(c)
+    # builtins whose other arguments (bag, extra arguments, terms of = and \=) share variables with a goal whose answers
+    # depend on the binding state of those variables (progs.gen_meta_program)
+    for _ in range(150 if tier == 'quick' else 2500):
+        p = progs.gen_meta_program(rng)
+        cases.append({'clauses': p['clauses'], 'queries': p['queries'], 'origin': 'meta-shared', 'three_views': True})
     # clause-local variables that occur first in an = goal inside a scope whose bindings must be undone (lib/progs_shapes.py)
     for _ in range(N_FIRST[tier]):
         cases.append(progs_shapes.gen_first_binding_program(rng))
@@ -117,6 +114,24 @@ def builtin_corpus():
     prog([['n1', [], call('\\=', F('f', V('X'), V('X')), F('f', A('a'), A('b')))], ['n2', [], ['and', call('=', V('Y'), V('X')), call('\\=', F('f', V('X'), V('Y')), F('f', A('a'), A('b')))]],
           ['n3', [V('X')], call('\\=', V('X'), A('a'))], ['n4', [], call('\\=', ['list', [V('X'), V('X')]], ['list', [['num', '1'], ['num', '2']]])]],
          [['n1', []], ['n2', []], ['n3', [V('Q0')]], ['n3', [A('b')]], ['n4', []]])
+    # round 3: a non-variable bag that shares variables with a goal whose later answers depend on them; the bag is matched
+    # only after the enumeration (r(V,X) on its own: X = V, then V = b, X = c)
+    r = [['r', [V('V'), V('X')], call('=', V('X'), V('V'))], ['r', [V('V'), V('X')], ['and', call('=', V('V'), A('b')), call('=', V('X'), A('c'))]],
+         ['e', [A('a'), A('b')], ['true']], ['e', [A('b'), A('c')], ['true']]]
+    bagT = ['pair', A('a'), V('T')]
+    prog([['t1', [V('V'), V('T')], call('findall', V('X'), F('r', V('V'), V('X')), bagT)],
+          ['t2', [V('G'), V('T')], call('findall', V('X'), F('call', V('G'), V('X')), bagT)],
+          ['t3', [V('V')], call('findall', V('X'), F('r', V('V'), V('X')), ['list', [V('_')]])],
+          ['t4', [V('V'), V('P'), V('Q')], call('findall', V('X'), F('r', V('V'), V('X')), ['list', [V('P'), V('Q')]])],
+          ['t5', [V('V'), V('T')], call('findall', V('X'), F('r', V('V'), V('X')), ['pair', V('V'), V('T')])],
+          ['u', [V('N'), V('T')], call('findall', F('p', V('X'), V('N')), F('e', V('X'), V('N')), ['pair', F('p', A('a'), V('N')), V('T')])],
+          ['o', [V('V'), V('X')], ['and', call('once', F('r', V('V'), V('X'))), call('=', V('V'), A('b'))]],
+          ['c', [V('V'), V('X')], ['and', call('call', F('r', V('V')), V('X')), call('\\=', V('V'), A('a'))]]] + r,
+         [['t1', [V('Q0'), V('Q1')]], ['t1', [A('b'), V('Q0')]], ['t1', [A('c'), V('Q0')]], ['t2', [F('r', V('Q0')), V('Q1')]], ['t3', [V('Q0')]],
+          ['t4', [V('Q0'), V('Q1'), V('Q2')]], ['t4', [V('Q0'), V('Q0'), V('Q1')]], ['t5', [V('Q0'), V('Q1')]], ['u', [V('Q0'), V('Q1')]],
+          ['o', [V('Q0'), V('Q1')]], ['c', [V('Q0'), V('Q1')]],
+          ['findall', [V('Q0'), F('r', V('Q1'), V('Q0')), ['pair', A('a'), V('Q2')]]], ['findall', [V('Q0'), F('e', V('Q0'), V('Q1')), ['pair', A('a'), V('Q1')]]]])
+    L[-1]['three_views'] = True
     return L
 
 def nontrivial(case, io):
@@ -127,8 +142,28 @@ def nontrivial(case, io):
         progs.constructs(b, cs)
     return bool(cs & {'call:call', 'call:once', 'call:findall'})
 
+def _bags(b, acc):
+    if b[0] in ('and', 'or', 'if'):
+        _bags(b[1], acc); _bags(b[2], acc)
+    elif b[0] == 'not':
+        _bags(b[1], acc)
+    elif b[0] == 'call' and b[1] == 'findall' and len(b[2]) == 3:
+        t = b[2][2]
+        k = 'variable' if t[0] == 'var' else 'closed list' if t[0] == 'list' else 'partial list' if t[0] == 'pair' else 'not a list'
+        acc[k] = acc.get(k, 0) + 1
+
 def distribution(cases, obs):
     d = semcheck.stats(cases, obs)
+    d['cases_meta_shared_family'] = sum(1 for c in cases if c.get('origin') == 'meta-shared')
+    bags = {}
+    for c in cases:
+        for _, _, b in c['clauses']:
+            _bags(b, bags)
+        for q in c['queries']:
+            if q[0] == 'findall' and len(q[1]) == 3:
+                _bags(['call', 'findall', q[1]], bags)
+    d['findall_bag_shapes'] = bags
+    d['cases_with_twin_oracle'] = sum(1 for o in obs if isinstance(o, dict) and 'twin' in o)
     shapes = {}
     for c in cases:
         k = c.get('shape', 'layered')
@@ -137,3 +172,83 @@ def distribution(cases, obs):
     d['queries_where_findall_collected_an_unbound_variable_of_the_caller'] = sum(
         1 for o in obs if isinstance(o, dict) and 'queries' in o for q in o['queries'] if q.get('findall_outer'))
     return d
+
+# ---- intrinsic oracle (implementation alone, no model): every builtin call is replaced by its standard definition
+#   findall(T,G,B)      =>  findall(T,G,L'), L' = B        (L' a new variable: the bag is matched AFTER the enumeration)
+#   X \= Y              =>  \+ X = Y
+#   once(G)             =>  ( G -> true ), true             (G written inline)
+#   call(G,A1..An)      =>  name(args ++ A1..An)            (G written inline)
+# and the rewritten program must give the same answers to the same queries on the implementation.
+def _twin_body(b, n):
+    k = b[0]
+    if k in ('and', 'or', 'if'):
+        return [k, _twin_body(b[1], n), _twin_body(b[2], n)]
+    if k == 'not':
+        return ['not', _twin_body(b[1], n)]
+    if k != 'call':
+        return b
+    f, args = b[1], b[2]
+    if f == 'findall' and len(args) == 3:
+        n[0] += 1
+        lv = ['var', 'Twin%d' % n[0]]
+        return ['and', ['call', 'findall', [args[0], args[1], lv]], ['call', '=', [lv, args[2]]]]
+    if f == '\\=' and len(args) == 2:
+        n[0] += 1
+        return ['not', ['call', '=', args]]
+    if f == 'once' and len(args) == 1 and args[0][0] in ('fun', 'atom'):
+        n[0] += 1
+        g = args[0]
+        # `, true`: an if-then directly to the left of a `;` would be read as if-then-else
+        return ['and', ['if', ['call', g[1], g[2] if g[0] == 'fun' else []], ['true']], ['true']]
+    if f == 'call' and args and args[0][0] in ('fun', 'atom'):
+        g = args[0]
+        name = g[1]
+        if name in ('true', 'fail', '!', ',', ';', '->', '\\+'):
+            return b
+        n[0] += 1
+        return ['call', name, (g[2] if g[0] == 'fun' else []) + args[1:]]
+    return b
+
+def twin(case):
+    n = [0]
+    cl = [[name, args, _twin_body(body, n)] for name, args, body in case['clauses']]
+    if not n[0]:
+        return None
+    return {'clauses': cl, 'queries': case['queries']}
+
+def impl(case):
+    io = semcheck.impl(case)
+    if isinstance(io, dict) and 'queries' in io and 'findall' in semcheck.source_of(case):
+        # see lib/findall_diag.py: does some collected instance contain an unbound variable of the caller?
+        from lib import findall_diag
+        try:
+            for iq, f in zip(io['queries'], findall_diag.outer_flags(case)):
+                iq['findall_outer'] = f
+        except Exception:
+            pass
+    if isinstance(io, dict) and 'queries' in io and not case.get('source'):
+        tw = twin(case)
+        if tw is not None:
+            t = semcheck.impl(tw)
+            # a rewritten program that the compiler refuses (it is larger: CPython's nesting limits, D13) says nothing
+            if isinstance(t, dict) and 'queries' in t:
+                io['twin'] = t['queries']
+    return io
+
+def oracle(case, io):
+    r = semcheck.oracle(case, io)
+    if r or not isinstance(io, dict) or 'twin' not in io:
+        return r
+    tw = io['twin']
+    from lib import ast_io
+    for q, a, b in zip(case['queries'], io['queries'], tw):
+        if a['end'] != 'done' or b['end'] != 'done':
+            continue
+        x, y = a['answers'], b['answers']
+        if a.get('findall_inner') or b.get('findall_inner'):
+            x, y = semcheck.anon_vars(x), semcheck.anon_vars(y)
+        if x != y or a['count'] != b['count']:
+            qtxt = ast_io.term_text(['fun', q[0], q[1]]) if q[1] else q[0]
+            return ('query %s: %d answers, but %d answers when every findall(T,G,B) is written findall(T,G,L), L = B, every X \\= Y as \\+ X = Y, '
+                    'every inline once(G) as (G -> true) and every inline call(G,A..) as the goal itself' % (qtxt, a['count'], b['count']))
+    return None
